@@ -16,6 +16,12 @@ type RESPConn struct {
 
 // DialTimeout dials a resp
 func DialTimeout(address string, timeout time.Duration) (*RESPConn, error) {
+	if c, err, ok := verifDialRESP(address, timeout); ok {
+		if err != nil {
+			return nil, err
+		}
+		return &RESPConn{conn: c, rd: resp.NewReader(c), wr: resp.NewWriter(c)}, nil
+	}
 	tcpconn, err := net.DialTimeout("tcp", address, timeout)
 	if err != nil {
 		return nil, err
